@@ -3,11 +3,20 @@ from vlib import *
 import callrcu_common as CR
 FILES = ['src/urcu-call-rcu-impl.h', 'src/urcu.c', 'include/urcu/call-rcu.h']
 PROGS = ['HC0C1K/BB/()', 'C0C1B/(C2)B/()', 'C0B/C1B/(C2)', 'HC0C1BK/C2B/()', 'c0B/C2C3B/(())', 'HC0K/C1B/C2B']
+def handoff_cases(ctx):
+    """rcu_barrier() racing with the destruction of a busy per-thread helper H: H (thread 2) is frozen j steps into its batch, the barrier's marker is queued behind that batch,
+    the default helper D (thread 3) runs its own marker and goes back to sleep, call_rcu_data_free(H) stops H and hands its leftovers - the marker - over to D"""
+    out = []
+    for prog in ('HC0K/C1B', 'HC0C2K/C1B/()'):
+        for j in range(0, 70 if ctx.quick() else 140, 2 if ctx.quick() else 1):
+            for jb in (25, 45):
+                out.append((prog, '>0>0' + 'a' * 6 + '>1' + 'b' * 6 + '3d' * 150 + '2c' * j + '1b' * jb + '3d' * 150 + '0a' * 30 + '2c' * 200 + '0a' * 100))
+    return out
 def run(ctx):
     ctx.cov['source_hash'] = source_hash(FILES)
     prove(ctx)
     driver = build_model_driver(ctx, 'callrcu', 'ExtractCallRcu.v', 'callrcu_driver.ml')
-    CR.run_scen(ctx, PROGS, 300 if ctx.quick() else 4000, 'C04', driver)
+    CR.run_scen(ctx, PROGS, 300 if ctx.quick() else 4000, 'C04', driver, extra_cases=handoff_cases(ctx))
     return finish(ctx, trusted=__import__('props.C03', fromlist=['TRUSTED']).TRUSTED + ['completion object reference counting is exercised (ASan-free run) but not modelled'],
                   rule='as C03, with 1-2 concurrent rcu_barrier() callers, helpers created/destroyed during the barrier; barrier oracle: every callback whose call_rcu() returned '
                        'before the barrier call has finished when it returns; stuck-state oracle')
